@@ -429,13 +429,12 @@ impl StaticMetadata {
         for ni in named_instances.iter() {
             let instance_name = ni.name.as_str();
             if ni.location == default_instance_location
-                && names
-                    .iter()
-                    .find_map(|(key, string)| (*string == instance_name).then_some(key.name_id))
-                    .is_some_and(|name_id| {
-                        name_id == NameId::SUBFAMILY_NAME
-                            || name_id == NameId::TYPOGRAPHIC_SUBFAMILY_NAME
-                    })
+                // several name ids may share the string, and `names` has no defined order
+                && names.iter().any(|(key, string)| {
+                    *string == instance_name
+                        && (key.name_id == NameId::SUBFAMILY_NAME
+                            || key.name_id == NameId::TYPOGRAPHIC_SUBFAMILY_NAME)
+                })
             {
                 log::debug!(
                     "Reuse existing subfamily name '{instance_name}' for default instance at {default_instance_location:?}",
@@ -708,6 +707,50 @@ mod tests {
             reverse_names.get("Fam").unwrap().iter().next().unwrap(),
             &NameId::FAMILY_NAME
         );
+    }
+
+    #[test]
+    fn default_instance_name_reuse_ignores_map_order() {
+        // "Fam" is both id 16 (not reusable) and id 17 (reusable by the default instance);
+        // which of them the HashMap yields first must not matter.
+        for _ in 0..32 {
+            // every new HashMap gets its own hash keys, and so its own order
+            let names: HashMap<_, _> = [
+                (NameId::FAMILY_NAME, "Fam Fam"),
+                (NameId::SUBFAMILY_NAME, "Regular"),
+                (NameId::TYPOGRAPHIC_FAMILY_NAME, "Fam"),
+                (NameId::TYPOGRAPHIC_SUBFAMILY_NAME, "Fam"),
+            ]
+            .into_iter()
+            .map(|(id, s)| (NameKey::new(id, s), s.to_string()))
+            .collect();
+            let axis = Axis::for_test("wght");
+            let default_instance = NamedInstance {
+                name: "Fam".to_string(),
+                postscript_name: None,
+                location: vec![(WGHT, axis.default)].into(),
+            };
+            let static_metadata = StaticMetadata::new(
+                1000,
+                names,
+                vec![axis],
+                vec![default_instance],
+                Default::default(),
+                Default::default(),
+                Default::default(),
+                None,
+                false,
+            )
+            .unwrap();
+            let mut name_ids: Vec<_> = static_metadata
+                .names
+                .keys()
+                .map(|key| key.name_id.to_u16())
+                .collect();
+            name_ids.sort();
+            // 256 is the axis name; no 257 for the instance
+            assert_eq!(name_ids, vec![1, 2, 16, 17, 256]);
+        }
     }
 
     #[test]
